@@ -46,7 +46,10 @@ SOLVERS = ["Rattle", "Rattle", "BackwardEuler", "DualStormerVerlet", "Moreau", "
 @st.composite
 def _case(draw):
     mech = draw(dynbuild.mechanism())
-    solver = draw(st.sampled_from(SOLVERS))
+    # actuated mechanisms are integrated with ScipyIVP more often (its multipliers are computed a posteriori)
+    solver = draw(st.sampled_from(SOLVERS + (["ScipyIVP"] * 8 if mech.get("drive", {}).get("type") in ("Motor", "PD", "PID") else [])))
+    if solver.startswith("Scipy"):
+        mech.pop("idle_contact", None)  # the scipy wrappers do not treat contacts (they warn, C21)
     dt = 10.0 ** draw(gen.f(-3.0, -1.3))
     nsteps = draw(st.integers(20, 60))
     if solver.startswith("Scipy"):
@@ -149,6 +152,8 @@ def check(spec):
     bm = spec["mech"].get("base_motion")
     if bm:
         res.label("rheonomic:" + solver, "rheonomic:rotating_base" if "axis" in bm else "rheonomic:translating_base")
+    if spec["mech"].get("idle_contact"):
+        res.label("idle_contact:" + solver)
     if "drive" in spec["mech"]:
         res.label("drive:" + spec["mech"]["drive"]["type"], "drive:" + solver)
     return res
